@@ -9,8 +9,8 @@ import numpy as np
 from ..gen import cards
 
 LEVEL = "fault_enumeration"
-SHARDS = {"quick": 12, "thorough": 16}
-TIMEOUT = {"quick": 600, "thorough": 3000}
+SHARDS = {"quick": 16, "thorough": 16}
+TIMEOUT = {"quick": 900, "thorough": 3000}
 THREADS = {"quick": 1, "thorough": 1}
 RULE = (
     "per case: one generated card, started from the full or from a restricted chain selection, x every operation in {partial_weight, "
@@ -71,6 +71,7 @@ def run(ctx):
     from tf_pwa.amp.amp import AbsPDF
     from tf_pwa.amp.core import DecayGroup
     from tf_pwa.applications import fit_fractions
+    from tf_pwa.fitfractions import FitFractions
     from tf_pwa.experimental import build_amp as bamp
     from tf_pwa.experimental import opt_int
     from tf_pwa.variable import VarsManager
@@ -148,7 +149,7 @@ def run(ctx):
                     d.set_ls(list(d.total_ls))
         amp.set_params(st["params"])
 
-    n_cards = ctx.pick(12, 400)
+    n_cards = ctx.pick(16, 400)
     for i, rng in ctx.cases("cards", n_cards, budget_s=ctx.pick(450, 2600)):
         tag = "_c17s%di%d" % (ctx.seed, i)
         try:
@@ -196,6 +197,9 @@ def run(ctx):
                 continue
         ctx.context = {"card": cards.short(card), "index": i, "traced": traced, "bounded": sorted(bounded)}
         vm0 = tconfig.get_config("vm", None)
+        dg.set_used_chains(list(range(nch)))
+        with quiet():
+            ff_full = FitFractions(amp, res_names)
 
         # ---------------- operations: op(body) ; body is called inside the innermost block (may raise)
         def op_partial_weight(body):
@@ -216,6 +220,32 @@ def run(ctx):
                 r = fit_fractions(amp, mc, None, {}, 17, res_names, method="new")
                 r.get_frac(error_matrix=None, sum_diag=False)
             body()
+
+        def op_ff_obj_reused(body):
+            # one FitFractions object, built once per card under the FULL selection, asked to integrate again under whatever selection is active now
+            with quiet():
+                ff_full.integral(mc, batch=17)
+                ff_full.get_frac(error_matrix=None, sum_diag=False)
+            body()
+
+        def op_ff_obj_in_block(body):
+            # the object is built outside, the integration runs inside a restricted-resonance block: when integral() returns, the block's own
+            # selection must still be active (checked in place: leaving the block would hide a leak)
+            with quiet():
+                ff = FitFractions(amp, res_names)
+            with amp.temp_used_res(res_names[:1]):
+                inside = list(dg.chains_idx)
+                f_in = np.asarray(amp(probe))
+                with quiet():
+                    ff.integral(mc)
+                after = list(dg.chains_idx)
+                f_after = np.asarray(amp(probe))
+                same_f = f_in.shape == f_after.shape and np.max(np.abs(f_in - f_after) / (np.abs(f_in) + 1e-300)) <= 1e-12
+                ctx.check("state restored after normal exit", inside == after and bool(same_f),
+                          lambda: {"card": cards.short(card), "operation": "FitFractions(amp, res) built outside, integral() inside temp_used_res", "chains_inside_block_before": inside,
+                                   "chains_after_integral": after, "density_unchanged": bool(same_f)},
+                          mechanism="not restored after normal exit: FitFractions.integral inside a temp_used_res block (object built outside)")
+                body()
 
         def op_cal_ff(body):
             with quiet():
@@ -303,7 +333,7 @@ def run(ctx):
             "nested(mask_params>temp_params)": nested6, "nested(mask_params>temp_params(positional))": nested7, "temp_used_res(all resonances)": nested8,
             "nested(mask_params>mask_params)": nested3, "nested(mask_params>factor_iteration)": nested4, "nested(factor_iteration>mask_params)": nested5,
             "partial_weight": op_partial_weight, "partial_weight_interference": op_partial_interf, "fit_fractions(old)": op_ff_old,
-            "fit_fractions(new)": op_ff_new, "cal_fitfractions": op_cal_ff, "factor_iteration": op_factor_iter, "build_amp_matrix": op_amp_matrix,
+            "fit_fractions(new)": op_ff_new, "FitFractions object reused": op_ff_obj_reused, "FitFractions object inside temp_used_res": op_ff_obj_in_block, "cal_fitfractions": op_cal_ff, "factor_iteration": op_factor_iter, "build_amp_matrix": op_amp_matrix,
             "build_angle_amp_matrix": op_angle_amp_matrix, "build_int_matrix": op_int_matrix,
             "temp_params": cm(lambda: amp.temp_params(some)),
             # positional override (what a minimiser's x or vm.get_all_val() is): values of all trainable variables in order
@@ -317,9 +347,10 @@ def run(ctx):
         op_names = list(ops)
         # a rotating subset per card in the quick tier
         if ctx.tier == "quick":
-            op_names = [op_names[(i * 7 + j) % len(op_names)] for j in range(7)]
+            op_names = [op_names[(i + j * 5) % len(op_names)] for j in range(5)]  # stride 5: the expensive fit-fraction operations are spread over the cards
             # the operations whose outcome depends on the card class are always run on that class
-            extra_ops = (["temp_used_res(all resonances)", "factor_iteration", "temp_used_res"] if traced else []) + \
+            extra_ops = (["FitFractions object reused", "FitFractions object inside temp_used_res"] if i % 8 == 0 else []) + \
+                (["temp_used_res(all resonances)", "factor_iteration", "temp_used_res"] if traced else []) + \
                 (["vm.temp_params", "temp_params", "nested(mask_params>temp_params)"] if bounded else [])
             op_names += [o for o in extra_ops if o not in op_names]
         for start in ("full", "restricted"):
@@ -329,6 +360,7 @@ def run(ctx):
             ref = snapshot(cfg, amp, probe)
             for name in op_names:
                 op = ops[name]
+                _t_op = __import__("time").time()
                 desc = lambda: {"operation": name, "start_selection": start, "chains_idx_before": ref["chains_idx"], "card": cards.short(card), "config": card["config"]}
 
                 def judge(monitor, fault, mech):
@@ -377,7 +409,7 @@ def run(ctx):
                     if ctx.tier == "quick" and len(ks) > 4:
                         ks = sorted(set([1, total] + rng.choice(ks, size=2, replace=False).tolist()))
                     for k in ks:
-                        if k > at_body.get(key, 0) and name not in ("partial_weight", "partial_weight_interference", "fit_fractions(old)", "fit_fractions(new)", "cal_fitfractions",
+                        if k > at_body.get(key, 0) and name not in ("partial_weight", "partial_weight_interference", "fit_fractions(old)", "fit_fractions(new)", "cal_fitfractions", "FitFractions object reused",
                                                                      "factor_iteration", "build_amp_matrix", "build_angle_amp_matrix", "build_int_matrix"):
                             # the call happens after the block body: it belongs to the restoring code itself (a failing restore cannot restore)
                             ctx.count("fault_in_restoring_code_not_judged")
@@ -401,6 +433,8 @@ def run(ctx):
                         judge("state restored after injected fault (call level)", "%s#%d" % (key, k), "not restored after fault inside: " + name)
                         ctx.covered("fault_site", key)
                 ctx.covered("operation", name)
+                ctx.count("seconds:op:" + name, int(__import__("time").time() - _t_op))
+                ctx.count("seconds:card:%d%s" % (i, "(traced)" if traced else ""), int(__import__("time").time() - _t_op))
             dg.set_used_chains(list(range(nch)))
         # (iv) abandoned generators
         dg.set_used_chains(list(range(nch)))
